@@ -398,4 +398,7 @@ def check(model, tier):
     from ..rules import bounds as _bounds
 
     _bounds.r06_7_bound_formulas(ctx, rule="R01.15")
+    from ..rules.foundation import run_foundation
+
+    run_foundation(ctx, "01")
     return run
